@@ -108,6 +108,27 @@ def task_sequences(rep, ctx):
                   key="C16.task.reporter", reproduced=None))
     seqs["reporter_uses_reply"] = ok and n_fin > 0
     rep.functions_encoded.append(w + "::{closure#0}")
+    # the three public reporters are exactly one report of their own flag: nothing else is sent to the provision actor from them
+    # (a shortcut that stamps `finished` without reporting the flag loses the report and re-dates the finish)
+    for fn, flag in (("redirector_ready", "REDIRECTOR_READY"), ("key_latched", "KEY_LATCH_READY"), ("listener_started", "LISTENER_READY")):
+        try:
+            wf = ctx.one("provision::" + fn)
+        except Inconclusive:
+            continue
+        engf = ctx.engine()
+        okr, detail = True, ""
+        for r in engf.explore(wf + "::{closure#0}"):
+            if r.status != "return":
+                continue
+            ups = [e for e in r.events if e.kind == "await" and e.callee.endswith("update_provision_state")]
+            others = [e.callee.split("::")[-1] for e in r.events if e.kind == "await" and re.search(r"ProvisionSharedState::\w+$", e.callee)]
+            good = len(ups) == 1 and const_flag(ups[0].rargs[0]) == flag and not others
+            if not good:
+                okr = False
+                detail = "reports %d (flag %s), other actor messages %s" % (len(ups), const_flag(ups[0].rargs[0]) if ups else None, others)
+        rep.add(Query("reporter %s: every path is exactly one update_provision_state(%s) and no other message to the provision actor" % (fn, flag), "holds" if okr else "violated", detail, 0, "mirsym",
+                      key="C16.task.reporter:" + fn, reproduced=None))
+        rep.functions_encoded.append(wf + "::{closure#0}")
     # reset
     w = ctx.one("provision::reset_provision_state")
     eng = ctx.engine()
